@@ -140,7 +140,7 @@ ZIPS = {'zip', 'zip_eq'}
 
 
 class Event:
-    __slots__ = ('kind', 'node', 'callee', 'decl', 'recv', 'args', 'val', 'ctx', 'stack', 'fn', 'tried', 'extra', 'pins', 'eq_pins')
+    __slots__ = ('kind', 'node', 'callee', 'decl', 'recv', 'args', 'val', 'ctx', 'stack', 'fn', 'tried', 'extra', 'pins', 'eq_pins', 'cmps')
 
     def __init__(self, kind, node, fn, ctx, stack, callee=None, decl=None, recv=None, args=None, val=None, tried=False, extra=None):
         self.kind = kind
@@ -157,6 +157,7 @@ class Event:
         self.extra = extra
         self.pins = EMPTY
         self.eq_pins = EMPTY
+        self.cmps = []
 
     @property
     def q(self):
@@ -287,6 +288,7 @@ class Flow:
         self.lits = lits
         self.events = []
         self.track_idx = track_idx
+        self.alias = {}
         self.idx_value = idx_value   # False: an index does not contribute to the value of v[i] (pure value flow)
         self.tagger = tagger
         self.opaque = set(OPAQUE) | set(opaque)
@@ -326,7 +328,7 @@ class Flow:
         finally:
             self.events = saved
 
-    def len_paths(self, fr, n, ctx, stack, strict=False, want_eq=False, pol=1):
+    def len_paths(self, fr, n, ctx, stack, strict=False, want_eq=False, pol=1, cmps=None):
         """access paths whose len()/is_some()/is_none()/height() occurs in this expression (directly, or through a
         local bound to such an expression).  strict: only through arithmetic / casts / refs.
         want_eq: return (all, eq) where eq = those the condition PINS: operands of an `==` that must hold (or of a `!=`
@@ -375,6 +377,10 @@ class Flow:
                     c = pl < 0
                 elif op in ('Lt', 'Le', 'Gt', 'Ge'):
                     c = False
+                if cmps is not None and op in ('Lt', 'Le', 'Gt', 'Ge', 'Eq', 'Ne'):
+                    # the relation that must hold for execution to continue, with the length paths of each side
+                    rel = op if pl > 0 else {'Lt': 'Ge', 'Le': 'Gt', 'Gt': 'Le', 'Ge': 'Lt', 'Eq': 'Ne', 'Ne': 'Eq'}[op]
+                    cmps.append((rel, self.len_paths(fr, x['l'], ctx, stack), self.len_paths(fr, x['r'], ctx, stack), weak, x['l'], x['r'], fr.fn))
                 elif op in ('And', 'Or'):
                     c = ueq
                     # `a || b` that must hold (or `a && b` that must fail) is satisfied by either side alone
@@ -612,7 +618,8 @@ class Flow:
         g_el = el is not None and (diverges_with_err(el) or tail_is_err(el))
         if g_th or g_el:
             ge = Event('guard', n, fr.fn, ctx, stack, val=cf, extra='ensure' if in_macro(n, 'ensure') else 'if')
-            ge.pins, ge.eq_pins = self.len_paths(fr, n['c'], ctx, stack, want_eq=True, pol=(-1 if g_th and not g_el else 1))
+            ge.cmps = []
+            ge.pins, ge.eq_pins = self.len_paths(fr, n['c'], ctx, stack, want_eq=True, pol=(-1 if g_th and not g_el else 1), cmps=ge.cmps)
             self.events.append(ge)
         elif panics(th) or (el is not None and panics(el)):
             mac = macro_of(n) or 'panic'
@@ -635,6 +642,8 @@ class Flow:
             self.bind(fr, a['p'], s)
             if single and n['e'].get('k') == 'Tup' and a['p'].get('k') == 'PTuple' and len(n['e']['a']) == len(a['p']['a']):
                 for sub, pe in zip(a['p']['a'], n['e']['a']):
+                    for b in pat_binds(sub):
+                        self.alias[b['id']] = pe     # `match (&a, &b) { (lhs, rhs) => .. }` of assert_eq!/ensure!
                     lp = self.len_paths(fr, pe, ctx, stack)
                     if lp:
                         for b in pat_binds(sub):
